@@ -688,3 +688,93 @@ class Guarantee:
                 res = not any(f.term(b)["k"] == "return" for b in r)
         self.memo[f.path] = res
         return res
+
+
+# ---------------------------------------------------------------------------------------------
+# boolean guards (value polarity), arm restriction
+
+def bool_true_edges(f, call):
+    """For a call returning bool / Result<bool> / Option<bool>: the switch edges taken only when the
+    boolean is TRUE (through `?`, copies and `!`)."""
+    if not call.dst:
+        return set()
+    same = {call.dst[0]}      # carriers of the (wrapped) value
+    bools = {}                # local -> polarity (True: local==1 means guard true)
+    if f.locals[call.dst[0]] == "bool":
+        bools[call.dst[0]] = True
+    changed = True
+    while changed:
+        changed = False
+        for bb, s in f.stmts():
+            d = s["d"]
+            if len(d) != 1:
+                continue
+            k = s.get("k")
+            if k in ("use", "ref") and s["o"] and "p" in s["o"][0]:
+                src = s["o"][0]["p"]
+                if src[0] in same and d[0] not in same and d[0] not in bools:
+                    if f.locals[d[0]] == "bool":
+                        # payload extraction (as Continue/.0, as Ok/.0, as Some/.0)
+                        if not any(isinstance(e, str) and e in ("as Break", "as Err", "as None") for e in src[1:]):
+                            bools[d[0]] = True
+                            changed = True
+                    else:
+                        same.add(d[0]); changed = True
+                elif len(src) == 1 and src[0] in bools and d[0] not in bools and f.locals[d[0]] == "bool":
+                    bools[d[0]] = bools[src[0]]; changed = True
+            elif k == "unop" and s.get("op") == "Not":
+                src = _opl(s["o"][0])
+                if src in bools and d[0] not in bools:
+                    bools[d[0]] = not bools[src]; changed = True
+        for c in f.calls():
+            if c.dst and len(c.dst) == 1 and c.args and _opl(c.args[0]) in same and c.dst[0] not in same:
+                if c.name == "branch" or (c.name in RESULT_ADAPTORS and c.name != "map"):
+                    same.add(c.dst[0]); changed = True
+    edges = set()
+    for bb in range(f.nblocks()):
+        t = f.term(bb)
+        if t["k"] != "switch":
+            continue
+        l = _opl(t["discr"])
+        if l not in bools:
+            continue
+        tg = dict((v, b) for v, b in t["targets"])
+        want = 1 if bools[l] else 0
+        if want in tg:
+            edges.add((bb, tg[want]))
+        elif want == 1 and 0 in tg:
+            edges.add((bb, t["otherwise"]))
+        elif want == 0:
+            # switch written [1 -> x] otherwise y
+            edges.add((bb, t["otherwise"]))
+    return edges
+
+
+def arm_only(prog, f, bb, adt_last, allowed):
+    """True iff block bb is reachable only through match arms of `adt_last` variants in `allowed`
+    (some discriminant switch of that ADT separates it from the entry)."""
+    dl = {}
+    for b, s in f.stmts():
+        if s.get("k") == "discr" and last_seg(s.get("adt")) == adt_last and len(s["d"]) == 1:
+            dl[s["d"][0]] = s["adt"]
+    cut = set()
+    for w in range(f.nblocks()):
+        t = f.term(w)
+        if t["k"] != "switch" or _opl(t["discr"]) not in dl:
+            continue
+        adt = prog.adts.get(dl[_opl(t["discr"])])
+        if not adt:
+            continue
+        dv = {v["discr"]: v["name"] for v in adt["variants"]}
+        listed = set()
+        for val, tb in t["targets"]:
+            listed.add(val)
+            if dv.get(val) in allowed:
+                cut.add((w, tb))
+        # `otherwise` covers the unlisted variants: allowed only if all of them are allowed
+        rest = [n for d, n in dv.items() if d not in listed]
+        if rest and all(n in allowed for n in rest):
+            cut.add((w, t["otherwise"]))
+    if not cut:
+        return False
+    return bb not in reach_without_edges(f, 0, cut)
